@@ -71,7 +71,10 @@ def gen_case(rng, idx, tier):
 
 def setup(case, proj):
     ts = case["dag"]["targets"]
-    variant = [{"name": t["name"], "ins_expr": repr(t["ins"]), "outs_expr": repr(t["outs"]), "spec": t["spec"], "route": "target"} for t in ts]
+    import random as _random
+
+    sr = _random.Random(case["first_id"] + len(ts))
+    variant = [{"name": t["name"], "ins_expr": repr(gen.respell_list(sr, t["ins"], proj.root)), "outs_expr": repr(gen.respell_list(sr, t["outs"], proj.root, 0.1)), "spec": t["spec"], "route": "target"} for t in ts]
     proj.write_workflow(gen.render_workflow(variant))
     proj.write_config({"backend": case["sched"]})
     for f, tk in case["ticks"].items():
@@ -88,6 +91,7 @@ def do_run(case, proj, sim, env, mts, deps, patterns, res, label):
             tracked = json.load(f)
     except FileNotFoundError:
         tracked = {}
+    tracked = scenario.check_tracked(res, sim, sched, tracked, set(deps), {"label": label, "sched": sched})
     bview = scenario.backend_view(sim, tracked, sched)
     mtime = scenario.disk_mtimes(scenario.all_paths(mts))
     names = set(deps)
